@@ -17,13 +17,14 @@ W(m) == m.cfg.collect
 InitKnown(m) == m.cfg.initMin = m.cfg.initMax
 RRKnown(m) == m.cfg.rrMin = m.cfg.rrMax
 
-\* Answers pending for an instance that is stopped.  One that may already sit in the collector (its delay has elapsed) may
-\* still leave with it.  One whose delay has not elapsed is STALE: it is no longer required, and it may be sent only if, when its
-\* turn comes, the instance has been started again and has already sent its first offer -- a stopped instance and one in its
-\* initial wait phase stay silent.
+\* Answers pending for an instance that is stopped.  One that may already sit in the collector (its delay has elapsed while the
+\* instance was ready) may still leave with it.  One whose delay has not elapsed is STALE: it is no longer required, and it may be
+\* sent only if, in the tick in which its delay elapses, the instance has been started again and has sent its first offer (ok) --
+\* a stopped instance and one in its initial wait phase stay silent.
 Stopped(pend, z, w) ==
   [j \in DOMAIN pend |-> IF pend[j].inst \notin z THEN pend[j]
-                         ELSE IF pend[j].lo = 0 THEN [pend[j] EXCEPT !.must = FALSE, !.hi = IF @ > w THEN w ELSE @]
+                         ELSE IF pend[j].lo = 0 /\ (~pend[j].stale \/ pend[j].ok)
+                         THEN [pend[j] EXCEPT !.must = FALSE, !.stale = FALSE, !.hi = IF @ > w THEN w ELSE @]
                          ELSE [pend[j] EXCEPT !.must = FALSE, !.stale = TRUE]]
 
 Api(m, e) ==
@@ -58,7 +59,7 @@ Finds(m, src, mc, es) ==
            new == IF en.ty # "find" THEN <<>>
                   ELSE LET hit == SelectSeq(m.annl, LAMBDA i : FindMatches(m, i, en.svc) /\ Status(m, i) # "not")
                        IN [j \in DOMAIN hit |->
-                             [inst |-> hit[j], dst |-> src, must |-> Status(m, hit[j]) = "must", stale |-> FALSE,
+                             [inst |-> hit[j], dst |-> src, must |-> Status(m, hit[j]) = "must", stale |-> FALSE, ok |-> FALSE, due |-> FALSE,
                               lo |-> IF ~mc THEN 0 ELSE IF RRKnown(m) THEN m.cfg.rrMin ELSE -1,
                               hi |-> IF ~mc THEN W(m) ELSE IF RRKnown(m) THEN m.cfg.rrMin + W(m) ELSE -1]]
        IN Finds([m EXCEPT !.pend = @ \o new], src, mc, Tail(es))
@@ -88,7 +89,7 @@ Undrawn(m) ==
 Answer(m, dst, en) ==
   LET is == InstOfSvc(m, en.svc)
       P(must) == {j \in DOMAIN m.pend : m.pend[j].inst \in is /\ m.pend[j].dst = dst /\ m.pend[j].must = must
-                                        /\ m.pend[j].lo = 0 /\ (~m.pend[j].stale \/ Status(m, m.pend[j].inst) # "not")}
+                                        /\ m.pend[j].lo = 0 /\ (~m.pend[j].stale \/ m.pend[j].ok)}
       First(S) == CHOOSE j \in S : \A x \in S : m.pend[j].hi < m.pend[x].hi \/ (m.pend[j].hi = m.pend[x].hi /\ j <= x)
       drop(q, j) == SubSeq(q, 1, j - 1) \o SubSeq(q, j + 1, Len(q))
       m1 == IF P(TRUE) # {}
@@ -126,11 +127,14 @@ Adv(m0, d) ==
   LET m  == Undrawn(m0)
       m1 == IF \E j \in DOMAIN m.pend : m.pend[j].must /\ m.pend[j].hi < d THEN Fail(m, "find_not_answered") ELSE m
       keep == SelectSeq(m1.pend, LAMBDA p : p.hi >= d)
-  IN [m1 EXCEPT !.pend = [j \in DOMAIN keep |-> [keep[j] EXCEPT !.hi = @ - d, !.lo = IF @ > d THEN @ - d ELSE 0]],
+  IN [m1 EXCEPT !.pend = [j \in DOMAIN keep |-> [keep[j] EXCEPT !.hi = @ - d, !.lo = IF @ > d THEN @ - d ELSE 0,
+                                                                !.due = keep[j].lo > 0 /\ keep[j].lo <= d]],
                 !.till = [i \in DOMAIN @ |-> IF @[i] = -1 THEN -1 ELSE IF @[i] > d THEN @[i] - d ELSE 0],
                 !.grace = [i \in DOMAIN @ |-> IF @[i] > d THEN @[i] - d ELSE 0]]
 
-MonStep(m0, e) ==
+Ready(m) == [m EXCEPT !.pend = [j \in DOMAIN @ |-> IF @[j].stale /\ @[j].due /\ ~@[j].ok /\ Status(m, @[j].inst) # "not"
+                                                    THEN [@[j] EXCEPT !.ok = TRUE] ELSE @[j]]]
+MonStep0(m0, e) ==
   LET m == [m0 EXCEPT !.n = @ + 1] IN
   CASE e.k = "in" /\ e.op = "rx" -> IF e.uc THEN Finds(Undrawn(m), e.src, e.mc, e.es) ELSE Undrawn(m)
     [] e.k = "in" /\ e.op # "rx" -> Api(Undrawn(m), e)
@@ -141,4 +145,6 @@ MonStep(m0, e) ==
     [] e.k = "adv"  -> Adv(m, e.d)
     [] e.k = "exc"  -> Fail(m, "exception")
     [] OTHER -> m
+\* (whether a stale answer may go out is decided in the tick in which its delay elapses, after every event of that tick)
+MonStep(m0, e) == Ready(MonStep0(m0, e))
 =============================================================================
